@@ -33,6 +33,7 @@ type scenario struct {
 	SignalAfterMs int    `json:"signal_after_ms,omitempty"` // after the request reached the backend (or after start when idle)
 	Second        string `json:"second_signal,omitempty"`          // a second signal (INT | TERM) ...
 	SecondAfterMs int    `json:"second_signal_after_ms,omitempty"` // ... this long after the first one
+	ListHoldMs    int    `json:"list_hold_ms,omitempty"`       // how long the list call in flight at the signal is held after it (default 150 ms; a long poll lasts up to 30 s)
 	ListFault     string `json:"list_fault,omitempty"`      // "503": how the list call in flight at the signal ends (default: empty list). A dropped connection is not used: net/http re-sends an idempotent GET on its own, which the fake proxy cannot tell from a new poll
 }
 
@@ -130,7 +131,14 @@ func runScenario(agentBin string, sc scenario) result {
 				case <-r.Context().Done():
 				case <-signalled:
 					// the call in flight when the signal arrives
-					time.Sleep(150 * time.Millisecond)
+					hold := 150
+					if sc.ListHoldMs > 0 {
+						hold = sc.ListHoldMs
+					}
+					select {
+					case <-time.After(time.Duration(hold) * time.Millisecond):
+					case <-r.Context().Done():
+					}
 					switch sc.ListFault {
 					case "503":
 						faulted = true
@@ -300,6 +308,8 @@ func main() {
 			scenario{Name: "graceful-2s-idle-second-signal-" + sig, Kind: "graceful", GraceMs: 2000, Signal: sig, Phase: "idle", SignalAfterMs: 700, Second: "INT", SecondAfterMs: 300},
 			scenario{Name: "graceful-1500ms-backend-finishes-in-the-last-half-second-" + sig, Kind: "graceful", GraceMs: 1500, Signal: sig, Phase: "at-backend", BackendMs: 1150, SignalAfterMs: 100},
 			scenario{Name: "graceful-800ms-idle-" + sig, Kind: "graceful", GraceMs: 800, Signal: sig, Phase: "idle", SignalAfterMs: 700},
+			scenario{Name: "graceful-off-idle-long-poll-in-flight-" + sig, Kind: "graceful", GraceMs: 0, Signal: sig, Phase: "idle", SignalAfterMs: 700, ListHoldMs: 4000},
+			scenario{Name: "graceful-1s-idle-long-poll-in-flight-" + sig, Kind: "graceful", GraceMs: 1000, Signal: sig, Phase: "idle", SignalAfterMs: 700, ListHoldMs: 4000},
 			scenario{Name: "graceful-2s-idle-list-503-" + sig, Kind: "graceful", GraceMs: 2000, Signal: sig, Phase: "idle", SignalAfterMs: 700, ListFault: "503"},
 			scenario{Name: "graceful-3s-backend-list-503-" + sig, Kind: "graceful", GraceMs: 3000, Signal: sig, Phase: "at-backend", BackendMs: 1200, SignalAfterMs: 200, ListFault: "503"},
 		)
